@@ -88,7 +88,9 @@ ViaOf(fr) ==
           ELSE IF f.fk = "hook" THEN rest      \* the hook's decoration sits on the callee frame (callp)
           ELSE rest
 
-Fail(m, p)     == [m EXCEPT !.res = [k |-> "fail", p |-> p, via |-> ViaOf(m.fr)]]
+(* `at`: the statement the main frame is executing when the failure occurs *)
+AtOf(m) == IF m.fr[1].ptr >= 1 /\ m.fr[1].ptr <= Len(m.code) THEN m.code[m.fr[1].ptr].p ELSE 0
+Fail(m, p)     == [m EXCEPT !.res = [k |-> "fail", p |-> p, via |-> ViaOf(m.fr), at |-> AtOf(m)]]
 Panic(m, site) == [m EXCEPT !.res = [k |-> "panic", site |-> site]]
 Unmod(m)       == [m EXCEPT !.res = [k |-> "unm"]]
 
@@ -154,7 +156,7 @@ BindArgs(m, ci, names, callee) ==   \* -> [m, callee] or a finished machine in m
           ELSE LET a == Peek(cf, 1)
                    m2 == [m EXCEPT !.fr[ci] = Drop(cf, 1)]
                IN IF Head(names) \in Reserved
-                    THEN [m |-> [m2 EXCEPT !.res = [k |-> "fail", p |-> a.p, via |-> ViaOf(m2.fr)]], callee |-> << >>]
+                    THEN [m |-> [m2 EXCEPT !.res = [k |-> "fail", p |-> a.p, via |-> ViaOf(m2.fr), at |-> AtOf(m2)]], callee |-> << >>]
                     ELSE BindArgs(m2, ci, Tail(names),
                                   [callee EXCEPT !.syms = SymAdd(@, Head(names), a.v, a.p)])
 
